@@ -568,7 +568,7 @@ func (b *GRPCBroker) Dial(id uint32) (conn *grpc.ClientConn, err error) { return
 // Dial opens a connection by ID with options.
 func (b *GRPCBroker) DialWithOptions(id uint32, opts ...grpc.DialOption) (conn *grpc.ClientConn, err error) {
 	if b.muxer.Enabled() {
-		return dialGRPCConn(b.tls, b.muxDial(id), opts...)
+		return dialGRPCConn(context.Background(), b.tls, b.muxDial(id), opts...)
 	}
 
 	var c *plugin.ConnInfo
@@ -606,7 +606,7 @@ func (b *GRPCBroker) DialWithOptions(id uint32, opts ...grpc.DialOption) (conn *
 		return nil, err
 	}
 
-	return dialGRPCConn(b.tls, netAddrDialer(addr), opts...)
+	return dialGRPCConn(context.Background(), b.tls, netAddrDialer(addr), opts...)
 }
 
 // NextId returns a unique ID to use next.
